@@ -18,6 +18,7 @@ const (
 	KFile Kind = iota
 	KDir
 	KSymlink
+	KSpecial // named pipe, socket, device: only ever seen in damaged trees (never opened by the oracle)
 )
 
 func (k Kind) String() string {
@@ -28,6 +29,8 @@ func (k Kind) String() string {
 		return "dir"
 	case KSymlink:
 		return "symlink"
+	case KSpecial:
+		return "special"
 	}
 	return "?"
 }
@@ -206,7 +209,7 @@ func ReadTree(dir string) (*Build, error) {
 				}
 				b.E[p] = &Entry{Path: p, Kind: KFile, Data: data}
 			default:
-				return fmt.Errorf("unexpected file type at %s: %v", p, st.Mode())
+				b.E[p] = &Entry{Path: p, Kind: KSpecial}
 			}
 		}
 		return nil
